@@ -83,6 +83,14 @@ def run(ctx):
         # canonical forms of finished configurations are no longer needed
         for ci, _ in part:
             first.pop(ci, None)
+    # completeness and order at scale
+    import bulk
+    nb = 0
+    for n in ((3000,) if ctx.quick else (3000, 70000)):
+        bj = bulk.gather_jobs(n)
+        br = run_api(ctx, exe, [{"id": j["id"], "calls": j["calls"]} for j in bj], "bulk", nproc=1)
+        nb += sum(1 for j in bj if bulk.judge_gather(ctx, j, br[j["id"]], "scale"))
+    ctx.cov["scale_scenarios_conforming"] = nb
     ctx.cov.update({
         "traces_validated_against_impl": nok,
         "configurations": len(cases), "gathers": njobs, "gathers_conforming": nok,
@@ -107,6 +115,9 @@ def first_diff(a, b):
 def replay(path):
     d = json.load(open(path))
     rp = d["replay"]
+    if rp.get("bulk"):
+        import bulk
+        return bulk.replay(rp)
     ctx = Ctx("C07_replay", "quick", 0, LEVEL)
     exe = build_harness()
     outs = set()
